@@ -15,7 +15,7 @@ def Cases(tier):
   cases = []
   for i in range(n):
     prog, query, feats = gen.Generate(rng, gen.CORE)
-    cases.append({'id': 'g%d' % i, 'prog': prog, 'query': query,
+    cases.append({'id': 'g%d' % i, 'prog': prog, 'query': query, 'stages': True,
                   'meta': {'features': feats, 'source': 'random'}})
   # spec -> code: programs enumerated by TLC from spec/ProgGen.tla
   if tier == 'quick':
